@@ -549,6 +549,46 @@ def native_services(seed: int) -> tuple[bool, str]:
     return (not once), "every reported id is supported and every supported id is reported"
 
 
+def native_session_checks() -> tuple[bool, str]:
+    """--sessions + --check-session against an ECU that drops to the default session when it
+    rejects certain services: every id must be probed in the session the findings are reported
+    for (the check runs before each probed id and restores the session)"""
+    import asyncio
+    import logging
+    logging.disable(logging.CRITICAL)
+    services, identifiers, S, X = mods()
+    from gallia.services.uds.core.constants import UDSErrorCodes as E
+    state = {"session": 3}
+    wrong: list[str] = []
+
+    class Ecu:
+        max_retry = 0
+
+        async def check_and_set_session(self, expected: int, retries: int = 3) -> bool:
+            state["session"] = expected
+            return True
+
+        async def send_raw(self, pdu: bytes, config: Any = None) -> Any:
+            if state["session"] != 3:
+                wrong.append(f"{pdu.hex()} probed in session {state['session']}")
+            sid = pdu[0]
+            if sid in (0x34, 0x35, 0x36):  # rejected, and the ECU falls back to default
+                state["session"] = 1
+                return S.NegativeResponse(sid, E.serviceNotSupportedInActiveSession)
+            if sid in (0x22, 0x3B) and state["session"] == 3:
+                return S.RawPositiveResponse(bytes([sid | 0x40, 0]))
+            return S.NegativeResponse(sid, E.serviceNotSupported)
+    cfg = services.ServicesScannerConfig(target="tcp-lines://127.0.0.1:1", db=None,
+                                         check_session=True, sessions="3")
+    sc = services.ServicesScanner(cfg)
+    sc.ecu = Ecu()  # type: ignore[assignment]
+    res, clean = asyncio.run(sc.perform_scan(3))
+    if wrong or sorted(res) != [0x22, 0x3B]:
+        return True, (f"scan of session 3 with --check-session: {wrong[:3]}; reported "
+                      f"{[hex(x) for x in sorted(res)]}, session 3 offers ['0x22', '0x3b']")
+    return False, "every id was probed in session 3"
+
+
 def native_identifiers(kind: str, start: int, end: int) -> tuple[bool, str]:
     import asyncio
     import logging
@@ -633,6 +673,8 @@ def native_replay(unit: str, obligation: str, model: dict) -> tuple[bool, str]:
     if unit.startswith("identifiers/perform_scan/") and ("counter" in obligation
                                                           or "D-reported" in obligation):
         return native_tallies(unit.split("/")[-1])
+    if unit.startswith("services/perform_scan") and "check-session" in obligation:
+        return native_session_checks()
     if unit.startswith("services/perform_scan"):
         for seed in range(int(model.get("seed", 0)), int(model.get("seed", 0)) + 6):
             bad, msg = native_services(seed)
